@@ -37,7 +37,7 @@ def run(ctx):
             if '+' not in n:          # the negative control needs a valid package name
                 cases.append(('plain-name', n + e))
     if quick:
-        keep = [c for c in cases if c[0] != 'url' or c[1].startswith('file://localhost')] + ctx.rng.sample([c for c in cases if c[0] == 'url'], 60)
+        keep = [c for c in cases if c[0] != 'url' or c[1].startswith('file://localhost') or c[1].startswith('C:')] + ctx.rng.sample([c for c in cases if c[0] == 'url'], 60)
         cases = keep
     for ext in (False, True):
         h = build.harness(ext=ext)
@@ -80,9 +80,31 @@ def run(ctx):
         ctx.extra['oracle_table_fills' + ('_ext' if ext else '')] = rm.misses
         rm.close()
         sess.close()
+    helper_correspondence(ctx)
     if not ctx.samples:
         ctx.sample('(none)')
     return fw.finish(ctx, 'make -C /verif/coq Props/C19.vo  (coqc, Print Assumptions under each theorem)')
+
+
+def helper_correspondence(ctx):
+    """the public helpers the recognition rests on, directly: split_scheme, strip_host, split_extras against their models, on scheme-like,
+    host-like and bracket-like texts (single-letter schemes, odd punctuation, empty pieces)"""
+    h = build.harness()
+    heads = ['', 'a', 'C', 'c', 'ab', 'a1', '1a', 'a+b', 'a-b', 'a.b', 'a+', 'a-', 'a.', '+a', '-a', 'ab-c.d+e', 'hg+static-http', 'file', 'FILE', 'é', 'a é', 'a_b', 'a:b', ' a', '\x01a', '\tab', 'a\x00']
+    tails = ['', ':', ':p', '://h/p', ':\\p', ':/p', '::', ' :p']
+    texts = [x + y for x in heads for y in tails]
+    hosts = ['', '/', '//', '///a', '//localhost', '//localhost/', '//localhost/a', '//localhostx/a', '//LOCALHOST/a', '/localhost/a', '//localhost//a', 'a//localhost/b', '//h/p']
+    brs = ['', '[', ']', '[]', 'a[]', 'a[b]', 'a[b', 'ab]', 'a[b]c', 'a[b][c]', '[a]', 'a[[b]]', 'a[b,c]', 'a [b]', 'a[b] ', 'a]b[', 'a[é]', 'é[a]', 'a[b]]']
+    cmds_h = [['splitscheme', S(t)] for t in texts] + [['striphost', S(t)] for t in hosts] + [['splitextras', S(t)] for t in brs]
+    cmds_m = cmds_h
+    hs = fw.batch(h, cmds_h)
+    ms = fw.batch(build.DRIVER, cmds_m)
+    for c, a, b in zip(cmds_h, hs, ms):
+        ctx.corr_cases += 1
+        ha = a[1:] if isinstance(a, list) and a and a[0] == 'ok' and c[0] != 'striphost' else (a[1] if isinstance(a, list) and a and a[0] == 'ok' else a)
+        mb = b[1:] if isinstance(b, list) and b and b[0] == 'ok' else b
+        if dump(ha) != dump(mb):
+            ctx.disagreement('%s (model) ~ pep508_rs::%s' % (c[0], {'splitscheme': 'split_scheme', 'striphost': 'strip_host', 'splitextras': 'split_extras'}[c[0]]), unS(c[1]), dump(mb)[:200], dump(ha)[:200])
 
 
 def scheme_wf(s):
